@@ -57,8 +57,8 @@ fn na_literal(mut idx: u64) -> String {
 fn space_for(tier: Tier) -> Space {
     let mut s = Space::new();
     match tier {
-        Tier::Quick => s.list("literals<=3", count(3), 64).list("non-ASCII literals<=2", na_count(2), 16).list("flag strings", 1, 1).list("long literals", 24, 4),
-        Tier::Thorough => s.list("literals<=4", count(4), 64).list("non-ASCII literals<=3", na_count(3), 16).list("flag strings", 1, 1).list("long literals", 24, 4),
+        Tier::Quick => s.list("literals<=3", count(3), 64).list("non-ASCII literals<=2", na_count(2), 16).list("flag strings", 1, 1).list("long literals", 24, 4).list("bracket literals", 3 + 9 + 27 + 81 + 243 + 729, 64),
+        Tier::Thorough => s.list("literals<=4", count(4), 64).list("non-ASCII literals<=3", na_count(3), 16).list("flag strings", 1, 1).list("long literals", 24, 4).list("bracket literals", 3 + 9 + 27 + 81 + 243 + 729, 64),
     };
     s
 }
@@ -156,6 +156,8 @@ impl C13 {
                     if all_no && m {
                         out.fail("C13", &case.clone().api("is_match"), "WrongTrue", "false", "true", "no alignment relates the characters by any simple case mapping or folding");
                     }
+                    // the three scan loops agree on the pieces (model-free, as in C04)
+                    crate::checks::c04::judge_as("C13", out, "NALIT", &lit, flags, false, &re, inp);
                     // the four APIs see the same occurrences
                     let found_an = an.iter().any(|e| matches!(e, AnalyzeEntry::Match(_)));
                     let found_tk = tk.len() > 1;
@@ -224,6 +226,33 @@ impl Check for C13 {
     fn run_chunk(&self, ctx: &Ctx, chunk: u64, out: &mut ChunkOut) {
         let sp = space_for(ctx.tier);
         let (seg, lo, hi) = sp.locate(chunk);
+        if crate::space::seg_scope_name(seg) == "bracket literals" {
+            // every string of 1..6 characters over ( ) a as a literal: the scan APIs must not look
+            // at the parentheses (analyze builds no group table under q)
+            const PA: [&str; 3] = ["(", ")", "a"];
+            for i in lo..hi {
+                let (mut len, mut idx, mut block) = (1usize, i, 3u64);
+                while idx >= block {
+                    idx -= block;
+                    block *= 3;
+                    len += 1;
+                }
+                let d = crate::util::nth_token_string(&PA, len, idx);
+                let lit = crate::gen::tokens_to_string(&PA, &d);
+                for flags in ["q", "qi"] {
+                    if let Out::Ok(re) = imp::compile(&lit, flags, false) {
+                        out.inc("nontrivial");
+                        for inp in [format!("a{}b", lit), format!("{}{}", lit, lit), "()".to_string(), lit.clone()] {
+                            crate::checks::c04::judge_as("C13", out, "PARLIT", &lit, flags, false, &re, &inp);
+                        }
+                    } else {
+                        out.fail("C13", &Case::new("PARLIT", &lit, flags).api("compile"), "LiteralRejected", "Ok", "rejected", "");
+                    }
+                }
+            }
+            out.sample(J::obj(vec![("bracket_literals", J::s("strings of 1..6 characters over ( ) a"))]));
+            return;
+        }
         if crate::space::seg_scope_name(seg) == "long literals" {
             // literals of 13..36 characters against every input that differs from the literal in
             // exactly one position (and the literal itself, embedded): prefix-length shortcuts
